@@ -456,6 +456,21 @@ Section WithOps.
     | None => Slice a lo hi st
     end.
 
+  (* ExprCompiled::slice AS WRITTEN in expr.rs (the bounds are Option<expr> there): `start.as_ref().map(|e| e.as_value())`
+     is an Option<Option<value>>, and the pattern `Some(start)` also matches a bound that is present but NOT a constant,
+     which is then handed to slice() as an ABSENT bound.  So with a constant receiver and all three bounds written the
+     slice is folded ignoring every non-constant bound (C02_slice_as_written_refuted: a finding).  `slice_c` above is the
+     intended guard: every present bound must be a constant. *)
+  Definition slice_as_written (a : expr) (lo hi st : option expr) : expr :=
+    let ex (x : option expr) := match x with Some e => e | None => Value VNone end in
+    let ov (x : option value) := match x with Some v => v | None => VNone end in
+    let dflt := Slice a (ex lo) (ex hi) (ex st) in
+    match as_builtin_value a, option_map as_value lo, option_map as_value hi, option_map as_value st with
+    | Some av, Some l, Some h, Some s =>
+        match try_cres (pure_slice OP av (ov l) (ov h) (ov s)) with Some e => e | None => dflt end
+    | _, _, _, _ => dflt
+    end.
+
   (* ExprCompiled::len *)
   Definition len_c (arg : expr) : expr :=
     match (match as_value arg with Some v => len_of v | None => None end) with
